@@ -7,6 +7,7 @@ import (
 	"reflect"
 	"sort"
 	"strconv"
+	"strings"
 	"time"
 
 	cache "github.com/fufuok/cache"
@@ -75,7 +76,16 @@ type twin interface {
 	name() string
 }
 
-func tkey(i int) string { return "k" + strconv.Itoa(i) }
+// tkey: key ids 1 and 2 are edge keys (the empty string; a key of 300 bytes), everything else is short.
+func tkey(i int) string {
+	switch i {
+	case 1:
+		return ""
+	case 2:
+		return strings.Repeat("long-key/", 33) + "2"
+	}
+	return "k" + strconv.Itoa(i)
+}
 
 func tns(t time.Time) int64 {
 	if t.IsZero() {
